@@ -571,6 +571,10 @@ def symbolize(facts, fid, path):
                 out.append(("icall", n, cs, obj, args))
             else:
                 out.append(("call", n, callee, obj, args))
+                if n.get("op") == "=" and obj is not None and len(args) == 1:
+                    # assignment of a class-type object (operator=): also a write of that place
+                    out.append(("write", n, obj, args[0]))
+                    S.stale(obj)
         elif t == "assume":
             out.append(("assume", ev[1], S.sym(ev[1]), ev[2]))
         elif t == "ret":
